@@ -99,6 +99,17 @@ func init() {
 			{Name: "allow-list add de-duplicates by pointer", ExpectRule: "C19.R4", ExpectKey: "network identity", Edits: []Edit{
 				{File: exh, Old: "\ttarget := network.String()\n\tfor _, route := range h.cfg.AllowedRoutes {\n\t\tif route.String() == target {\n\t\t\treturn\n\t\t}\n\t}\n", New: "\tfor _, route := range h.cfg.AllowedRoutes {\n\t\tif route == network {\n\t\t\treturn\n\t\t}\n\t}\n"},
 			}},
+			{Name: "admission helper no longer rejects when nothing allows", ExpectRule: "C19.R1", ExpectKey: "guard", Edits: []Edit{
+				{File: exh, Old: "\t// Resolve address\n\tip, err := h.resolver.Resolve(ctx, destAddr)\n\tif err != nil {\n\t\th.sendOpenErr(remoteID, streamID, requestID, protocol.ErrHostUnreachable, err.Error())\n\t\treturn\n\t}\n\n\t// Check if destination is allowed (domain patterns OR CIDR routes)\n\tif !domainAllowed && !h.isAllowed(ip) {\n\t\th.sendOpenErr(remoteID, streamID, requestID, protocol.ErrNotAllowed, \"destination not allowed\")\n\t\treturn\n\t}\n", New: "\tip, rejection := h.admitDestination(ctx, destAddr, domainAllowed)\n\tif rejection != nil {\n\t\th.sendOpenErr(remoteID, streamID, requestID, rejection.code, rejection.message)\n\t\treturn\n\t}\n"},
+				{File: exh, Old: "// AllowedRouteCount returns the number of allowed routes.", New: "type openRejection struct {\n\tcode    uint16\n\tmessage string\n}\n\nfunc (h *Handler) admitDestination(ctx context.Context, destAddr string, domainAllowed bool) (net.IP, *openRejection) {\n\tip, err := h.resolver.Resolve(ctx, destAddr)\n\tif err != nil {\n\t\treturn nil, &openRejection{code: protocol.ErrHostUnreachable, message: err.Error()}\n\t}\n\tswitch {\n\tcase domainAllowed:\n\tcase h.isAllowed(ip):\n\tdefault:\n\t\th.logger.Debug(\"destination not allowed\")\n\t}\n\treturn ip, nil\n}\n\n// AllowedRouteCount returns the number of allowed routes."},
+			}},
+			{Name: "wildcard helper anchors the base at the start of the name", ExpectRule: "C19.R2", ExpectKey: "end-anchored", Edits: []Edit{
+				{File: exh, Old: "\t\t\tif strings.HasSuffix(domain, suffix) {\n\t\t\t\t// Count dots before the suffix - should be zero for single-level wildcard\n\t\t\t\tprefix := domain[:len(domain)-len(suffix)]\n\t\t\t\tif !strings.Contains(prefix, \".\") && len(prefix) > 0 {\n\t\t\t\t\treturn true\n\t\t\t\t}\n\t\t\t}\n", New: "\t\t\tif singleLabelUnder(domain, strings.ToLower(dp.BaseDomain)) {\n\t\t\t\treturn true\n\t\t\t}\n\t\t\t_ = suffix\n"},
+				{File: exh, Old: "// AllowedRouteCount returns the number of allowed routes.", New: "func singleLabelUnder(name, base string) bool {\n\tsuffix := \".\" + base\n\tif !strings.HasPrefix(name, suffix) {\n\t\treturn false\n\t}\n\tlabel := name[len(suffix):]\n\treturn len(label) > 0 && !strings.Contains(label, \".\")\n}\n\n// AllowedRouteCount returns the number of allowed routes."},
+			}},
+			{Name: "CIDR helper allows when the list is empty", ExpectRule: "C19.R2", ExpectKey: "deny-by-default", Edits: []Edit{
+				{File: exh, Old: "\tif len(h.cfg.AllowedRoutes) == 0 {\n\t\treturn false // Deny by default when no routes configured\n\t}\n\n\tfor _, route := range h.cfg.AllowedRoutes {\n\t\tif route.Contains(ip) {\n\t\t\treturn true\n\t\t}\n\t}\n\n\treturn false\n}", New: "\treturn anyRouteContains(h.cfg.AllowedRoutes, ip)\n}\n\nfunc anyRouteContains(routes []*net.IPNet, ip net.IP) bool {\n\tif len(routes) == 0 {\n\t\treturn true\n\t}\n\tfor i := 0; i < len(routes); i++ {\n\t\tif routes[i].Contains(ip) {\n\t\t\treturn true\n\t\t}\n\t}\n\treturn false\n}"},
+			}},
 			// rewrites
 			{Name: "rewrite: allow decision as a named boolean", Edits: []Edit{
 				{File: exh, Old: "\tif !domainAllowed && !h.isAllowed(ip) {", New: "\tallowed := domainAllowed || h.isAllowed(ip)\n\tif !allowed {"},
@@ -144,6 +155,21 @@ func init() {
 				{File: exh, Old: "\ttarget := network.String()\n\tfor _, route := range h.cfg.AllowedRoutes {\n\t\tif route.String() == target {\n\t\t\treturn\n\t\t}\n\t}\n", New: "\tfor _, route := range h.cfg.AllowedRoutes {\n\t\tif sameRoute(route, network) {\n\t\t\treturn\n\t\t}\n\t}\n"},
 				{File: exh, Old: "// AllowedRouteCount returns the number of allowed routes.", New: "func sameRoute(a, b *net.IPNet) bool { return a.String() == b.String() }\n\n// AllowedRouteCount returns the number of allowed routes."},
 			}},
+			{Name: "rewrite: allow decision in an admission helper returning (ip, rejection)", Edits: []Edit{
+				{File: exh, Old: "\t// Resolve address\n\tip, err := h.resolver.Resolve(ctx, destAddr)\n\tif err != nil {\n\t\th.sendOpenErr(remoteID, streamID, requestID, protocol.ErrHostUnreachable, err.Error())\n\t\treturn\n\t}\n\n\t// Check if destination is allowed (domain patterns OR CIDR routes)\n\tif !domainAllowed && !h.isAllowed(ip) {\n\t\th.sendOpenErr(remoteID, streamID, requestID, protocol.ErrNotAllowed, \"destination not allowed\")\n\t\treturn\n\t}\n", New: "\tip, rejection := h.admitDestination(ctx, destAddr, domainAllowed)\n\tif rejection != nil {\n\t\th.sendOpenErr(remoteID, streamID, requestID, rejection.code, rejection.message)\n\t\treturn\n\t}\n"},
+				{File: exh, Old: "// AllowedRouteCount returns the number of allowed routes.", New: "type openRejection struct {\n\tcode    uint16\n\tmessage string\n}\n\nfunc (h *Handler) admitDestination(ctx context.Context, destAddr string, domainAllowed bool) (net.IP, *openRejection) {\n\tip, err := h.resolver.Resolve(ctx, destAddr)\n\tif err != nil {\n\t\treturn nil, &openRejection{code: protocol.ErrHostUnreachable, message: err.Error()}\n\t}\n\tswitch {\n\tcase domainAllowed:\n\tcase h.isAllowed(ip):\n\tdefault:\n\t\treturn nil, &openRejection{code: protocol.ErrNotAllowed, message: \"destination not allowed\"}\n\t}\n\treturn ip, nil\n}\n\n// AllowedRouteCount returns the number of allowed routes."},
+			}},
+			{Name: "rewrite: per-pattern match in a DomainPattern method using CutSuffix", Edits: []Edit{
+				{File: exh, Old: "\tfor _, dp := range h.cfg.AllowedDomains {\n\t\tif dp.IsWildcard {", New: "\tfor _, dp := range h.cfg.AllowedDomains {\n\t\tif dp.covers(domain) {\n\t\t\treturn true\n\t\t}\n\t}\n\tfor _, dp := range h.cfg.AllowedDomains[:0] {\n\t\tif dp.IsWildcard {"},
+				{File: exh, Old: "// AllowedRouteCount returns the number of allowed routes.", New: "func (dp DomainPattern) covers(domain string) bool {\n\tif !dp.IsWildcard {\n\t\treturn domain == strings.ToLower(dp.Pattern)\n\t}\n\tlabel, ok := strings.CutSuffix(domain, \".\"+strings.ToLower(dp.BaseDomain))\n\tif !ok {\n\t\treturn false\n\t}\n\treturn len(label) > 0 && !strings.Contains(label, \".\")\n}\n\n// AllowedRouteCount returns the number of allowed routes."},
+			}},
+			{Name: "rewrite: CIDR search in a plain helper function with an index loop", Edits: []Edit{
+				{File: exh, Old: "\tif len(h.cfg.AllowedRoutes) == 0 {\n\t\treturn false // Deny by default when no routes configured\n\t}\n\n\tfor _, route := range h.cfg.AllowedRoutes {\n\t\tif route.Contains(ip) {\n\t\t\treturn true\n\t\t}\n\t}\n\n\treturn false\n}", New: "\treturn anyRouteContains(h.cfg.AllowedRoutes, ip)\n}\n\nfunc anyRouteContains(routes []*net.IPNet, ip net.IP) bool {\n\tif 0 == len(routes) {\n\t\treturn false\n\t}\n\tfor i := 0; i < len(routes); i++ {\n\t\tif !routes[i].Contains(ip) {\n\t\t\tcontinue\n\t\t}\n\t\treturn true\n\t}\n\treturn false\n}"},
+			}},
+			{Name: "rewrite: on-demand exit configuration built by a helper that receives the routes", Edits: []Edit{
+				{File: agt, Old: "\texitCfg := exit.HandlerConfig{\n\t\tAllowedRoutes:  nil,\n", New: "\texitCfg := a.onDemandExitConfig(nil)\n\t_ = exit.HandlerConfig{\n"},
+				{File: agt, Old: "// ManageRoute handles dynamic route management (add/remove/list).", New: "func (a *Agent) onDemandExitConfig(routes []*net.IPNet) exit.HandlerConfig {\n\treturn exit.HandlerConfig{AllowedRoutes: routes, ConnectTimeout: 30 * time.Second, Logger: a.logger}\n}\n\n// ManageRoute handles dynamic route management (add/remove/list)."},
+			}},
 		},
 	})
 }
@@ -155,6 +181,7 @@ type c19Ctx struct {
 	fRoutes, fDomains *types.Var
 	cidr, domain      map[*ssa.Function]bool
 	derived           map[*ssa.Function]bool // helpers combining the predicates, false whenever both are false
+	admit             map[*ssa.Function]c19Admit
 	add, remove       *ssa.Function
 	routesMu          *types.Var
 	handlerT          *types.Named
@@ -265,6 +292,7 @@ func newC19Ctx(p *kit.Program, r *kit.Report) *c19Ctx {
 			cx.derived[f] = true
 		}
 	}
+	cx.computeAdmission()
 	var ms []*ssa.Function
 	for m := range cx.cidr {
 		ms = append(ms, m)
@@ -366,6 +394,9 @@ func (cx *c19Ctx) allowAtom(boolParams map[*ssa.Parameter]bool) kit.AtomEval {
 		if v, ok := base(cond); ok {
 			return v, true
 		}
+		if v, ok := cx.admitCond(cond, base); ok {
+			return v, true
+		}
 		if u, ok := cond.(*ssa.UnOp); ok && u.Op == token.MUL {
 			os := kit.Origins(cond)
 			if len(os) == 0 || (len(os) == 1 && os[0] == cond) {
@@ -422,7 +453,11 @@ func (cx *c19Ctx) judgeDial(fn *ssa.Function, site ssa.CallInstruction, addr ssa
 	var cidrCalls []*ssa.Call
 	for _, c := range kit.Calls(fn) {
 		if cc, ok := c.(*ssa.Call); ok {
-			if s := kit.CalleeOf(c).Static; s != nil && (cx.cidr[s] || cx.derived[s]) {
+			s := kit.CalleeOf(c).Static
+			if s != nil && (cx.cidr[s] || cx.derived[s]) {
+				cidrCalls = append(cidrCalls, cc)
+			}
+			if _, isAdmit := cx.admit[s]; s != nil && isAdmit {
 				cidrCalls = append(cidrCalls, cc)
 			}
 		}
@@ -486,6 +521,15 @@ func (cx *c19Ctx) judgeDial(fn *ssa.Function, site ssa.CallInstruction, addr ssa
 	// the address is computed from the checked ip
 	var ipVals []ssa.Value
 	for _, cc := range cidrCalls {
+		if a, isAdmit := cx.admit[kit.CalleeOf(cc).Static]; isAdmit {
+			// the checked IP is the one the admission helper hands back
+			if a.ipIdx >= 0 {
+				if e := kit.ExtractOf(cc, a.ipIdx); e != nil {
+					ipVals = append(ipVals, e)
+				}
+			}
+			continue
+		}
 		for i := 0; ; i++ {
 			a := kit.Arg(cc, i)
 			if a == nil {
@@ -796,7 +840,12 @@ func (cx *c19Ctx) ruleR2() {
 	for _, m := range cidrs {
 		fname := kit.FuncName(m)
 		var contains []*ssa.Call
-		for _, f := range kit.WithClosures(m) {
+		var scope []*ssa.Function
+		for f := range kit.StaticCallClosure(m, func(g *ssa.Function) bool { return c19InExit(g) }) {
+			scope = append(scope, f)
+		}
+		sort.Slice(scope, func(i, j int) bool { return scope[i].Pos() < scope[j].Pos() })
+		for _, f := range scope {
 			for _, c := range kit.Calls(f) {
 				cal := kit.CalleeOf(c)
 				if cc, ok := c.(*ssa.Call); ok && cal.Pkg == "net" && cal.Recv == "IPNet" && cal.Name == "Contains" {
@@ -836,7 +885,7 @@ func (cx *c19Ctx) ruleR2() {
 			}
 			return true
 		}
-		l := kit.LiveUnder(m, func(cond ssa.Value) (bool, bool) {
+		l := kit.LiveUnder(m, cx.deepAtom(func(cond ssa.Value) (bool, bool) {
 			if v, ok := noHit(cond); ok {
 				return v, true
 			}
@@ -847,7 +896,7 @@ func (cx *c19Ctx) ruleR2() {
 				}
 			}
 			return false, false
-		})
+		}, 0, map[*ssa.Function]bool{m: true}))
 		bad := trueReturn(l)
 		r.Decide(bad == "", "C19.R2", fname+" deny-by-default", p.Pos(m.Pos()),
 			"without a Contains hit every return yields false",
@@ -859,8 +908,8 @@ func (cx *c19Ctx) ruleR2() {
 			}
 		}
 		for i, c := range contains {
-			argFlow := kit.FlowSet(kit.Arg(c, 0), nil)
-			recvFlow := kit.FlowSet(kit.Receiver(c), nil)
+			argFlow := cx.flowDeep(kit.Arg(c, 0), m)
+			recvFlow := cx.flowDeep(kit.Receiver(c), m)
 			argOK := ipPar != nil && argFlow[ipPar]
 			for v := range argFlow {
 				if f, _ := kit.LoadedField(v); f == cx.fRoutes {
@@ -905,15 +954,15 @@ func (cx *c19Ctx) ruleR2() {
 	}
 	for _, m := range doms {
 		fname := kit.FuncName(m)
-		bad := trueReturn(kit.LiveUnder(m, c19DomainAtom("none")))
+		bad := trueReturn(kit.LiveUnder(m, cx.deepAtom(c19DomainAtom("none"), 0, map[*ssa.Function]bool{m: true})))
 		r.Decide(bad == "", "C19.R2", fname+" deny-by-default", p.Pos(m.Pos()),
 			"when no string test matches every return yields false",
 			"the return at "+bad+" can yield true although no pattern matched the name: arbitrary domains are permitted")
-		bad = trueReturn(kit.LiveUnder(m, c19DomainAtom("multi")))
+		bad = trueReturn(kit.LiveUnder(m, cx.deepAtom(c19DomainAtom("multi"), 0, map[*ssa.Function]bool{m: true})))
 		r.Decide(bad == "", "C19.R2", fname+" single-label wildcard", p.Pos(m.Pos()),
 			"a name whose part in front of the wildcard base contains a dot is not accepted",
 			"the return at "+bad+" can yield true for a name with several labels in front of the wildcard base: *.example.com also permits a.b.example.com, beyond the documented single-level pattern")
-		bad = trueReturn(kit.LiveUnder(m, cx.unanchoredAtom(m)))
+		bad = trueReturn(kit.LiveUnder(m, cx.unanchoredAtom(m, nil, 0, map[*ssa.Function]bool{m: true})))
 		r.Decide(bad == "", "C19.R2", fname+" end-anchored match", p.Pos(m.Pos()),
 			"an occurrence of the pattern inside the name, with no relation anchored at the end of the name, is not accepted",
 			"the return at "+bad+" can yield true when the pattern's base merely occurs somewhere in the name (substring / first-occurrence search) and nothing ties it to the end of the name: db.corp.example.attacker.test matches *.corp.example and the exit dials whatever that foreign name resolves to")
@@ -949,20 +998,43 @@ func (cx *c19Ctx) ruleR3() {
 				if acc.Kind == kit.FieldStore {
 					// initial allow-list: nothing, or what ParseAllowedRoutes made of the configured exit routes
 					okInit, what := true, ""
-					for _, o := range kit.Origins(acc.Val) {
-						if kit.IsNilConst(o) {
-							continue
-						}
-						if e, ok := o.(*ssa.Extract); ok && e.Index == 0 {
-							if c, ok := e.Tuple.(*ssa.Call); ok && kit.CalleeOf(c).Is("internal/exit", "", "ParseAllowedRoutes") {
+					var judge func(v ssa.Value, depth int)
+					judge = func(v ssa.Value, depth int) {
+						for _, o := range kit.Origins(v) {
+							if kit.IsNilConst(o) {
 								continue
 							}
+							if e, ok := o.(*ssa.Extract); ok && e.Index == 0 {
+								if c, ok := e.Tuple.(*ssa.Call); ok && kit.CalleeOf(c).Is("internal/exit", "", "ParseAllowedRoutes") {
+									continue
+								}
+							}
+							if q, ok := o.(*ssa.Parameter); ok {
+								// a configuration builder: judged at its call sites
+								owner := q.Parent()
+								idx := -1
+								for i, fp := range owner.Params {
+									if fp == q {
+										idx = i
+									}
+								}
+								callers := p.StaticCallers(owner)
+								if idx >= 0 && len(callers) > 0 && depth < 3 {
+									for _, cs := range callers {
+										if idx < len(cs.Common().Args) {
+											judge(cs.Common().Args[idx], depth+1)
+										}
+									}
+									continue
+								}
+								if c19InExit(owner) {
+									continue // handed in by the caller of a constructor in package exit
+								}
+							}
+							okInit, what = false, o.String()
 						}
-						if q, ok := o.(*ssa.Parameter); ok && c19InExit(q.Parent()) {
-							continue // handed in by the caller of a constructor in package exit
-						}
-						okInit, what = false, o.String()
 					}
+					judge(acc.Val, 0)
 					ord[fname+" init"]++
 					r.Decide(okInit, "C19.R3", fmt.Sprintf("%s initial allow-list #%d", fname, ord[fname+" init"]), p.Pos(acc.Instr.Pos()),
 						"the initial AllowedRoutes is nil or the parsed configured exit routes",
